@@ -395,6 +395,33 @@ CLAIMED = {
         'INDEX with row / column 0 is modelled but not replayed (the property '
         'does not state it; the library returns the first element).',
         'DESIGN.md 4/C19'),
+    'C12': (
+        'TLC model checking of Fns.tla over FnDef.tla (the listed functions '
+        'written from their Excel definitions on exact rationals and code '
+        'sequences; 25 laws relating them) + replay of every case on the real '
+        'functions through Cell',
+        'FnDef.tla defines the 70 listed functions; Fns.tla explores four '
+        'families of cases (19 001 in all): aggregations over argument lists '
+        'that mix directly typed values, referenced ranges with blanks / text '
+        '/ logicals / errors and array literals; logical and IS functions over '
+        'every value kind; element-wise mathematics (rounding of halves and '
+        'exact decimals such as 1.15, 2.675, 1.005 with digits -3..3, the sign '
+        'cases of MOD / CEILING / FLOOR / EVEN / ODD, domain errors); text '
+        'functions (positions 0, negative and past the end, optional '
+        'arguments, wild cards, coercion of numbers / logicals / blanks). TLC '
+        'checks in every state the laws OrderInvariant, AggBracket, KthDual, '
+        'RoundBracket, ModLaw, CeilFloor, EvenOdd, DeMorgan, XorParity, '
+        'IfsIsNestedIf, InfoPartition, LeftRight, MidLaw, ReplaceLaw, FindLaw, '
+        'SearchGeneralisesFind, SubstituteLaw, TextJoinLaw ... Each state is '
+        'an obligation evaluated by Cell with the referenced ranges supplied '
+        'as inputs and compared with the defined value (numbers to 1e-9; '
+        'irrational results against double-precision evaluation of the exact '
+        'arguments the specification names). Bounded by the pools.',
+        'Trusted: TLC; FnDef.tla as the statement of Excel\'s definitions '
+        '(points where Excel itself is not settled are classes: which of two '
+        'errors wins, FIND of the empty text just past the end, FLOOR(0,0)); '
+        'Python\'s math module for irrational values.',
+        'DESIGN.md 4/C12'),
 }
 
 REASON_PENDING = 'check not built yet in this round (planned, see DESIGN.md section 8)'
